@@ -37,6 +37,12 @@ impl Dns {
         let next = &mut self.next;
         *self.names.entry(name.to_string()).or_insert_with(|| {
             let host = *next;
+            // 192.168.0.0/16 has 16 host bits: past that the address would
+            // wrap around and be handed out a second time.
+            assert!(
+                host <= u16::MAX as u32,
+                "simulated subnet 192.168.0.0/16 exhausted"
+            );
             *next = next.wrapping_add(1);
             IpAddr::V4(Ipv4Addr::new(
                 192,
